@@ -103,6 +103,104 @@ theorem C03_writer_tables :
         some ["_append_node_generic", "_write_generic", "_append_version", "_append_node_generic", "_write_generic"] := by
   decide
 
+/-- the statement-by-statement shape of the two functions the model mirrors as folds
+    (`renameStep`: the if/elif chain of `_apply_annotation_rename_to`; `pairOne`/`accessorStep`/
+    `dropUnchosen`: `_pair_property_accessors`), diagnostics removed, and for every identifier-level
+    attribute of the writer its value and the guard it is appended under (`optAttr` = truthiness,
+    `someAttr` = `is not None`).  Re-extracted from /repo on every run. -/
+theorem C03_source_shape :
+    Gen.IdentAnn.skeletons =
+      [
+        ("_apply_annotation_rename_to", [
+          "    if not block:",
+          "        return",
+          "    rename_to = block.annotations.get(ANN_RENAME_TO)",
+          "    if not rename_to:",
+          "        return",
+          "    rename_to = rename_to[0]",
+          "    target = self._namespace.get_by_symbol(rename_to)",
+          "    if not target:",
+          "        pass",
+          "    elif target.shadowed_by:",
+          "        pass",
+          "    elif target.shadows:",
+          "        pass",
+          "    elif node.shadowed_by:",
+          "        pass",
+          "    else:",
+          "        target.shadowed_by = node.name",
+          "        node.shadows = target.name"]),
+        ("_pair_property_accessors", [
+          "    for prop in node.properties:",
+          "        normalized_name = prop.name.replace('-', '_')",
+          "        if not prop.introspectable:",
+          "            continue",
+          "        setter = None",
+          "        getter_candidates = {}",
+          "        found_getter_candidates = []",
+          "        inferred_getters = []",
+          "        if prop.setter is None:",
+          "            if prop.writable and (not prop.construct_only):",
+          "                setter = 'set_' + normalized_name",
+          "        else:",
+          "            setter = prop.setter",
+          "        if prop.getter is None:",
+          "            if prop.readable:",
+          "                getter_candidates[f'get_{normalized_name}'] = 50",
+          "                if prop.type.is_equiv(ast.TYPE_BOOLEAN) and (not normalized_name.startswith('is_')):",
+          "                    getter_candidates[f'is_{normalized_name}'] = 25",
+          "                if not prop.writable and prop.type.is_equiv(ast.TYPE_BOOLEAN):",
+          "                    getter_candidates[normalized_name] = 10",
+          "        else:",
+          "            getter_candidates[prop.getter] = 99",
+          "        for method in node.methods:",
+          "            if not method.introspectable:",
+          "                continue",
+          "            if setter is not None and method.name == setter:",
+          "                if method.set_property is None:",
+          "                    method.set_property = prop.name",
+          "                elif method.set_property != prop.name:",
+          "                    method.set_property = prop.name",
+          "                prop.setter = method.name",
+          "                continue",
+          "            if getter_candidates != {} and method.name in getter_candidates:",
+          "                found_getter_candidates.append(method.name)",
+          "                if method.get_property is None:",
+          "                    method.get_property = prop.name",
+          "                    inferred_getters.append(method)",
+          "                elif method.get_property != prop.name:",
+          "                    method.get_property = prop.name",
+          "                current_priority = -1",
+          "                if (current_getter := prop.getter):",
+          "                    current_priority = getter_candidates.get(current_getter, -1)",
+          "                if getter_candidates[method.name] >= current_priority:",
+          "                    prop.getter = method.name",
+          "                continue",
+          "        for method in inferred_getters:",
+          "            if method.name != prop.getter:",
+          "                method.get_property = None"])]
+    ∧ Gen.IdentAnn.writerConds =
+      [
+        ("_append_version", ["version=node.version if node.version"]),
+        ("_append_node_generic", ["introspectable='0' if node.skip or not node.introspectable", "deprecated='1' if node.deprecated or node.deprecated_doc", "deprecated-version=node.deprecated if node.deprecated", "stability=node.stability if node.stability"]),
+        ("_write_generic", []),
+        ("_write_alias", []),
+        ("_write_callable", ["glib:finish-func=callable.finish_func if callable.finish_func is not None", "glib:sync-func=callable.sync_func if callable.sync_func is not None", "glib:async-func=callable.async_func if callable.async_func is not None"]),
+        ("_write_function_common", ["shadowed-by=func.shadowed_by if func.shadowed_by", "shadows=func.shadows if not (func.shadowed_by) and func.shadows", "glib:set-property=func.set_property if func.set_property is not None", "glib:get-property=func.get_property if func.get_property is not None"]),
+        ("_write_enum", []),
+        ("_write_bitfield", []),
+        ("_write_member", []),
+        ("_write_constant", []),
+        ("_write_class", ["glib:ref-func=node.ref_func if isinstance(node, ast.Class) and node.ref_func", "glib:unref-func=node.unref_func if isinstance(node, ast.Class) and node.unref_func", "glib:set-value-func=node.set_value_func if isinstance(node, ast.Class) and node.set_value_func", "glib:get-value-func=node.get_value_func if isinstance(node, ast.Class) and node.get_value_func"]),
+        ("_write_property", ["setter=prop.setter if prop.setter", "getter=prop.getter if prop.getter", "default-value=prop.default_value if prop.default_value is not None"]),
+        ("_write_vfunc", ["invoker=vf.invoker if vf.invoker"]),
+        ("_write_callback", []),
+        ("_write_record", ["foreign='1' if record.foreign", "copy-function=record.copy_func if record.copy_func", "free-function=record.free_func if record.free_func"]),
+        ("_write_union", ["copy-function=union.copy_func if union.copy_func", "free-function=union.free_func if union.free_func"]),
+        ("_write_field", []),
+        ("_write_signal", ["emitter=signal.emitter if signal.emitter"])] := by
+  exact ⟨rfl, rfl⟩   -- literal against literal: no string is unpacked
+
 /-! ### C03_keys_disjoint -/
 
 theorem C03_keys_disjoint (t u : Target) (ht : t.Clean) (hu : u.Clean) (h : t.key = u.key) : t.Same u := by
@@ -668,6 +766,24 @@ example :
     ∧ st.shadows "b".toList = none ∧ st.shadows "c".toList = none ∧ st.shadowedBy "a".toList = none := by
   decide
 example : ((([("a".toList, "c".toList), ("b".toList, "c".toList)] : List (Str × Str)).map (·.1)).Nodup) := by decide
+-- a chain a→b→c is refused in either processing order: exactly one pair results, nobody carries both
+example :
+    let st := renameFold abcNames [("a".toList, "b".toList), ("b".toList, "c".toList)]
+    wShadows st "a".toList = some "b".toList ∧ wShadowedBy st "b".toList = some "a".toList
+    ∧ st.shadows "b".toList = none ∧ st.shadowedBy "c".toList = none := by
+  decide
+example :
+    let st := renameFold abcNames [("b".toList, "c".toList), ("a".toList, "b".toList)]
+    wShadows st "b".toList = some "c".toList ∧ wShadowedBy st "c".toList = some "b".toList
+    ∧ st.shadows "a".toList = none ∧ st.shadowedBy "b".toList = none := by
+  decide
+-- the hypotheses of C03_rename_written_partial hold for the chain; the self request is what it excludes
+example : ∀ r ∈ ([("a".toList, "b".toList), ("b".toList, "c".toList)] : List (Str × Str)), r.1 ≠ r.2 := by decide
+example :
+    let st := renameFold abcNames [("a".toList, "a".toList)]
+    st.shadows "a".toList = some "a".toList ∧ st.shadowedBy "a".toList = some "a".toList
+    ∧ wShadows st "a".toList = none ∧ wShadowedBy st "a".toList = some "a".toList := by
+  decide
 
 -- virtual methods
 example : vfuncsOf exBlocks exBar (fun _ => none)
